@@ -414,6 +414,129 @@ def run_sessions(unit, ctx):
             "counters": {"sessions": ev}}
 
 
+# ---- keywords written next to $ref, and classes whose keywords were replaced ------------------------------
+def ref_sibling_schemas(d, tier):
+    """{"$ref": target, sibling keyword} for every single keyword of the draft x three targets: whatever the
+    sibling says is ignored, and every entry point has to ignore it alike."""
+    out = []
+    targets = [("any", {}), ("int", {"type": "integer"}), ("none", {"not": {}} if d >= 4 else {"disallow": "any"})]
+    for k, v in _e1.get_singles(d, tier):
+        if k in ("$ref", "definitions"):
+            continue
+        for tname, T in targets:
+            out.append({"definitions": {"t": T}, "$ref": "#/definitions/t", k: v})
+            out.append({k: v, "definitions": {"t": T}, "$ref": "#/definitions/t"})
+    return out
+
+
+_ext = {}
+
+
+def extended_classes(d):
+    """Classes whose keyword implementations differ from the draft's: whatever shortcut an entry point takes must
+    go through the class's own table and type checker."""
+    if d not in _ext:
+        from jsonschema import validators as jv
+        cls = _e1.CLS[d]
+
+        def lenient_type(validator, types, instance, schema):
+            return
+            yield
+
+        def strict_enum(validator, enums, instance, schema):
+            yield exceptions.ValidationError("enum replaced")
+        _ext[d] = [
+            ("type-lenient", jv.extend(cls, {"type": lenient_type})),
+            ("enum-always-fails", jv.extend(cls, {"enum": strict_enum})),
+            ("string-is-anything", jv.extend(cls, type_checker=cls.TYPE_CHECKER.redefine("string", lambda c, i: True))),
+            ("no-integers", jv.extend(cls, type_checker=cls.TYPE_CHECKER.redefine("integer", lambda c, i: False))),
+        ]
+    return _ext[d]
+
+
+def check_with_class(cls, S, x):
+    """The entry-point relations for an arbitrary class (no module-level $schema selection involved)."""
+    v = cls(S)
+    r1 = call(lambda: [ident(e) for e in v.iter_errors(x)])
+    if r1[0] != "ret":
+        return None, 0
+    errs = r1[1]
+    iv = call(lambda: v.is_valid(x))
+    if iv != ("ret", not errs):
+        return "is_valid=%r but iter_errors yields %d error(s)" % (iv, len(errs)), len(errs)
+    va = call(lambda: v.validate(x))
+    if errs:
+        if va != ("ValidationError", errs[0]):
+            return "validate() did not raise the first error of iter_errors: %.200r" % (va,), len(errs)
+    elif va != ("ret", None):
+        return "validate() raised/returned %.200r for a valid instance" % (va,), 0
+    mv = call(lambda: jsonschema.validate(x, S, cls=cls))
+    if errs:
+        if mv[0] != "ValidationError":
+            return "module validate() gave %.200r for an invalid instance" % (mv,), len(errs)
+        if mv[1] not in leaves_and_tops(cls(S).iter_errors(x)):
+            return "module validate() raised an error that is neither one of iter_errors' nor a context-free descendant", len(errs)
+    elif mv != ("ret", None):
+        return "module validate() gave %.200r for a valid instance" % (mv,), 0
+    return None, len(errs)
+
+
+def run_refsib(unit, ctx):
+    d, _, shard, n = unit
+    U = jsonvals.universe_small()
+    lst = ref_sibling_schemas(d, ctx.tier)
+    ev = nt = 0
+    viol, outcomes = [], {}
+    for i in range(shard, len(lst), n):
+        S = lst[i]
+        if not _e1.accepted(d, S):
+            continue
+        for x in U:
+            ev += 1
+            p, k = check_valid_schema(d, S, x, None, False)
+            if k:
+                nt += 1
+            outcomes["ref-sibling:" + ("invalid" if k else "valid")] = outcomes.get("ref-sibling:" + ("invalid" if k else "valid"), 0) + 1
+            if p:
+                sib = [kk for kk in S if kk not in ("$ref", "definitions")][0]
+                viol.append({"signature": "C04|next-to-$ref|%s|%s" % (sib, p.split(" ")[0]), "size": len(str(S)) + len(str(x)),
+                             "case": {"draft": d, "schema": S, "instance": x, "config": {"format_checker": False, "via_schema": False}},
+                             "detail": {"problem": p}})
+    return {"evaluations": ev, "nontrivial": nt, "violations": viol, "samples": [], "outcomes": outcomes,
+            "counters": {"ref_sibling_cases": ev}}
+
+
+def run_extended(unit, ctx):
+    d, _, ci, shard, n = unit
+    name, cls = extended_classes(d)[ci]
+    U = jsonvals.universe_small()
+    lst = [S for S in _e1.get_list("singles", d, ctx.tier)] + \
+          [S for S in _e1.get_list("groups", d, ctx.tier) if isinstance(S, dict) and ("type" in S or "enum" in S)]
+    ev = nt = 0
+    viol, outcomes = [], {}
+    for i in range(shard, len(lst), n):
+        S = lst[i]
+        try:
+            cls.check_schema(S)         # the extended class's own verdict: its type checker reads the metaschema too
+        except Exception:
+            continue
+        for x in U:
+            ev += 1
+            try:
+                p, k = check_with_class(cls, S, x)
+            except Exception as e:
+                p, k = "relations could not be evaluated: %s" % type(e).__name__, 0
+            if k:
+                nt += 1
+            if p:
+                viol.append({"signature": "C04|extended-class|%s|%s" % (name, p.split(" ")[0]), "size": len(str(S)) + len(str(x)),
+                             "case": {"draft": d, "schema": S, "instance": x, "config": {"kind": "extended", "class_index": ci}},
+                             "detail": {"problem": p}})
+    outcomes["extended:%s" % name] = ev
+    return {"evaluations": ev, "nontrivial": nt, "violations": viol, "samples": [], "outcomes": outcomes,
+            "counters": {"extended_class_cases": ev}}
+
+
 def plan(ctx):
     sizes = {}
     units = []
@@ -431,6 +554,11 @@ def plan(ctx):
             sizes["reduced_pairs_d%d" % d] = len(rp)
             units += [(d, "rpairs", i, 8) for i in range(8)]
     for d in _e1.DRAFTS:
+        sizes["ref_sibling_schemas_d%d" % d] = len(ref_sibling_schemas(d, ctx.tier))
+        units += [(d, "refsib", i, 6) for i in range(6)]
+        for ci in range(len(extended_classes(d))):
+            units += [(d, "extended", ci, i, 2) for i in range(2)]
+    for d in _e1.DRAFTS:
         sizes["session_schemas_d%d" % d] = len(session_units(d, ctx.tier))
         units += [(d, "sessions", i, 12) for i in range(12)]
     n = 4 if ctx.tier == "quick" else 8
@@ -446,7 +574,10 @@ def plan(ctx):
                  "C11's table (4-12 positions) that the draft's check_schema rejects, with a trip-wire instance, "
                  "also after the same schema object was accepted by another draft's class or was accepted by this "
                  "class and then edited in place; "
-                 "all relations of the property are evaluated on each; SESSIONS: on ONE validator object every sequence "
+                 "all relations of the property are evaluated on each; NEXT TO $ref: every single keyword written next "
+                 "to a $ref (before and after it) x 3 targets x 29 instances; EXTENDED CLASSES: the relations for 4 "
+                 "classes whose `type` / `enum` function or type checker was replaced, over singles and the groups "
+                 "with type / enum; SESSIONS: on ONE validator object every sequence "
                  "of 2 (thorough: 3) calls (is_valid / first error then drop / validate / complete iteration) x "
                  "instance, for schemas with base-changing ids, relative and cross-document references (documents in "
                  "the store), for integer/number schemas on 2 / 2.0 / 2.5 / true, and (state-leaving call, then a "
@@ -475,6 +606,10 @@ def run_unit(unit, ctx):
 
     if kind == "sessions":
         return run_sessions(unit, ctx)
+    if kind == "refsib":
+        return run_refsib(unit, ctx)
+    if kind == "extended":
+        return run_extended(unit, ctx)
     if kind == "invalid":
         cands = invalid_candidates(d, ctx.tier)
         for i in range(unit[2], len(cands), unit[3]):
@@ -540,6 +675,9 @@ def run_unit(unit, ctx):
 
 def replay(case, ctx):
     d, S, cfg = case["draft"], case["schema"], case["config"]
+    if cfg.get("kind") == "extended":
+        p, k = check_with_class(extended_classes(d)[cfg["class_index"]][1], S, case["instance"])
+        return {"reproduced": bool(p), "problem": p}
     if cfg.get("kind") == "session":
         r = run_session(d, S, [tuple(h) for h in case["history"]], cfg["with_store"], {})
         return {"reproduced": r is not None, "problem": r}
